@@ -87,15 +87,27 @@ class Check(CheckBase):
                     cs.append({"label": "%s.%s/%s" % (cls_name, m, state), "cls": cls_name, "method": m, "state": state})
                 if m in ("connect", "disconnect"):
                     cs.append({"label": "%s.%s/port" % (cls_name, m), "cls": cls_name, "method": m, "state": "port"})
+        # the latch must also hold *inside* a method that issues several requests: a fault at a solver-chosen request of
+        # the call, then nothing more may be transmitted by that same call (harness shared with C05 part B)
+        from checks import c05
+        for m in public_methods(wrap):
+            if m in c05.EXEMPT_B or m in ("reboot", "bootload"):
+                continue
+            for f in ("timeout", "err-line", "read-exception"):
+                cs.append({"label": "B/%s/%s" % (m, f), "part": "B", "method": m, "fault": f, "midcall": True})
         return cs
 
     def config(self, tier, case):
         return engine.Config(max_decisions=120)
 
     def expected_reach(self, tier):
-        return ["blocked-call", "connect:err-kept", "connect:fresh-ok", "connect:fresh-fail", "disconnect"]
+        return ["blocked-call", "connect:err-kept", "connect:fresh-ok", "connect:fresh-fail", "disconnect", "midcall"]
 
     def harness(self, run, case):
+        if case.get("midcall"):
+            from checks import c05
+            run.reach("midcall")
+            return c05.Check().harness_b(run, case)
         handshake = {"i": 0}
 
         def comports_stub():
@@ -200,6 +212,10 @@ class Check(CheckBase):
         e3 = loader.native("ebb3_serial")
         m3 = loader.native("ebb3_motion")
         label = cex["case"]
+        if label.startswith("B/"):
+            from checks import c05
+            _b, method, fault = label.split("/")
+            return c05.Check().replay_b(cex, {"method": method, "fault": fault}, m3, e3)
         clsname, rest = label.split(".", 1)
         method, state = rest.split("/")
         cls = e3.EBB3 if clsname == "EBB3" else m3.EBBMotionWrap
